@@ -118,6 +118,15 @@ def spec(case, mo, io):
     return fails
 
 
+def late_invariant_mismatch(case, mm):
+    """is this verdict mismatch explained by an invariant given to a strict ancestor AFTER the class was created?"""
+    ops = case["ops"]
+    created = dict((o["k"], i) for i, o in enumerate(ops) if o["op"] == "class")
+    inv_at = dict((o["c"], (i, o["k"])) for i, o in enumerate(ops) if o["op"] == "inv")
+    when = inv_at.get(mm["false"])
+    return not (when is None or when[1] == mm["class"] or when[0] < created.get(mm["class"], -1))
+
+
 def classify(case, mo, io, fails):
     if case["dom"] == "meta" and fails and all(f.startswith("class ") for f in fails):
         # every mismatch concerns an invariant given to a strict ancestor AFTER the mismatching class was created
